@@ -463,12 +463,27 @@ pub fn run(tier: &str) -> ! {
     b.max_depth = if th { 5 } else { 4 };
     b.replay_sample = 8;
     run.add(mcx::explore(&Conserved { inner: mk }, &b));
+    let (mt, mut b) = big_client_collateral();
+    b.wall_cap_s = cap;
+    run.add(mcx::explore(&Conserved { inner: mt }, &b));
     let (life, mut b) = crate::c15::scenario_regime(tier, true);
     b.wall_cap_s = if th { 600.0 } else { 20.0 };
     b.replay_sample = 8;
     run.add(mcx::explore(&Conserved { inner: life }, &b));
     let _ = (Policy::default(), MsgKind::External, RegisteredPoStProof::Invalid(0));
     run.finish()
+}
+
+/// The market's payment/time-out scenario with a client collateral (2 FIL) larger than the
+/// provider collateral (1 FIL): amounts that are confused with each other show up as insolvency.
+fn big_client_collateral() -> (crate::market::Market, Bounds) {
+    let (mut m, b) = crate::c07::scenario("quick");
+    m.cfg.name = "payments-big-client-collateral";
+    for s in m.cfg.specs.iter_mut() {
+        s.ccoll = 2_000_000_000_000_000_000;
+    }
+    m.cfg.bases = vec!["published-1", "active-1"];
+    (m, b)
 }
 
 pub fn replay(v: &serde_json::Value) -> ! {
@@ -479,6 +494,7 @@ pub fn replay(v: &serde_json::Value) -> ! {
         "c01+paych" => crate::replay_with(&Conserved { inner: crate::c16::scenario("quick").0 }, v),
         "c01+multisig" => crate::replay_with(&Conserved { inner: crate::c12::scenario("quick").0 }, v),
         "c01+market/escrow" => crate::replay_with(&Conserved { inner: crate::c06::scenario("quick").0 }, v),
+        "c01+market/payments-big-client-collateral" => crate::replay_with(&Conserved { inner: big_client_collateral().0 }, v),
         "c01+miner-life/c15-poor" => crate::replay_with(&Conserved { inner: crate::c15::scenario_regime(tier, true).0 }, v),
         _ => {
             eprintln!("unknown C01 scenario {scn}");
